@@ -19,7 +19,7 @@ from .common import Failure, f2h, h2f, parse_reply, vec
 
 ID = "C17"
 BIN = "c17"
-PROOF_MODULES = ["Compute.Props.C17"]
+PROOF_MODULES = ["Compute.Lemmas.C17Binom", "Compute.Props.C17"]
 REQUIRED_THEOREMS = [
     "Cv.C17.binom_exact", "Cv.C17.binom_symm", "Cv.C17.binom_pascal", "Cv.C17.binom_not_val_imp_large",
     "Cv.C17.logistic_neg", "Cv.C17.logistic_pos", "Cv.C17.logistic_lt_one", "Cv.C17.logistic_strictMono",
